@@ -343,7 +343,7 @@ struct Collector {
     ParseResult* r = nullptr;
     const Config* cfg = nullptr;
     const Locator* loc = nullptr;
-    void tick() { if (cfg && cfg->throwAt && ++r->callbacks == cfg->throwAt) throw HarnessThrow(); }
+    void tick() { ++r->callbacks; if (cfg && cfg->throwAt && r->callbacks == cfg->throwAt) throw HarnessThrow(); }
     void err(const char* sev, const SAXParseException& e) {
         char b[64];
         snprintf(b, sizeof b, "|%llu|%llu|", (unsigned long long)e.getLineNumber(), (unsigned long long)e.getColumnNumber());
